@@ -8,7 +8,7 @@ def trace_cfg(ntok, calls=3, cap=2):
     return ("SPECIFICATION TSpec\nCONSTANTS\n  Calls = {%s}\n  Cap = %d\n  Tok = {%s}\n  Params = {%s}\n"
             "CONSTRAINT PropInv\nCONSTRAINT HighWater\nINVARIANT NotAccepted\nPOSTCONDITION Report\nCHECK_DEADLOCK FALSE\n" % (
                 ",".join(str(i) for i in range(1, calls + 1)), cap, ",".join(str(i) for i in range(1, max(ntok, 1) + 1)),
-                ",".join(str(i) for i in range(1, 19))))
+                ",".join(str(i) for i in range(1, 22))))
 
 
 def renumber(trace):
